@@ -1,6 +1,273 @@
-/- stub: property C06 has no model driver yet -/
+import ActixModel.Util
+import ActixModel.Model.DispTimers
+/-
+Line-protocol driver for C06.  One case = configuration words + timed events (see
+`harness/src/c06_rt.rs: parse_case` — same grammar).  The driver is a *scheduler*: it decides
+at which instants the connection future is polled (scripted events, the model's own timer
+deadlines, the handler / body sleeps, the signal, self-wakes) and folds `DispTimers.poll` over
+them; output = the canonical observation line of the harness (`show`).
+-/
 namespace ActixModel.Drv.C06
+open ActixModel.Util ActixModel.DispTimers
 
-def run (_line : String) : String := "unimplemented"
+inductive Ev where
+  | bytes (ts : List Tok)
+  | eof
+  | wake
+  | writeBlock (b : Bool)
+  | flushBlock (b : Bool)
+  | shutdownReady (b : Bool)
+
+structure Case where
+  cfg : Cfg := { T := 0, ka := .off, D := 0, halfClosed := true }
+  signal : Option Nat := none
+  accept : Nat := 0
+  horizon : Nat := 30000
+  sdReady : Bool := true
+  handlers : List (Nat × BodyKind × Nat) := []     -- delay, body kind, stream gap
+  events : List (Nat × Ev) := []
+
+def tokOfChar : Char → Option Tok
+  | 'G' => some .G | 'C' => some .C | 'a' => some .a | 'b' => some .b
+  | 'P' => some .P | 'd' => some .d | 'X' => some .X
+  | _ => none
+
+def toksOfString (s : String) : Option (List Tok) :=
+  s.toList.mapM tokOfChar
+
+def parseHandler (p : String) : Option (Nat × BodyKind × Nat) :=
+  match p.splitOn ":" with
+  | [d, b] =>
+    match d.toNat?, b.toList with
+    | some d, ['e'] => some (d, .empty, 0)
+    | some d, ['s'] => some (d, .small, 0)
+    | some d, 't' :: g => (String.ofList g).toNat?.map fun g => (d, .stream, g)
+    | _, _ => none
+  | _ => none
+
+def parseWord (c : Case) (w : String) : Option Case :=
+  match w.splitOn "=" with
+  | [k, v] =>
+    match k with
+    | "T" => v.toNat?.map fun n => { c with cfg := { c.cfg with T := n } }
+    | "K" =>
+      if v == "off" then some { c with cfg := { c.cfg with ka := .off } }
+      else if v == "os" then some { c with cfg := { c.cfg with ka := .os } }
+      else v.toNat?.map fun n => { c with cfg := { c.cfg with ka := if n = 0 then .off else .ms n } }
+    | "D" => v.toNat?.map fun n => { c with cfg := { c.cfg with D := n } }
+    | "hc" => some { c with cfg := { c.cfg with halfClosed := v != "0" } }
+    | "S" => v.toNat?.map fun n => { c with signal := some n }
+    | "A" => v.toNat?.map fun n => { c with accept := n }
+    | "H" => v.toNat?.map fun n => { c with horizon := n }
+    | "sd" => some { c with sdReady := v != "p" }
+    | "h" => ((v.splitOn ",").mapM parseHandler).map fun hs => { c with handlers := c.handlers ++ hs }
+    | _ => none
+  | _ =>
+    match w.splitOn ":" with
+    | [t, e] =>
+      match t.toNat? with
+      | none => none
+      | some t =>
+        let ev : Option Ev :=
+          if e == "E" then some .eof
+          else if e == "w" then some .wake
+          else if e == "wb" then some (.writeBlock true)
+          else if e == "wu" then some (.writeBlock false)
+          else if e == "fb" then some (.flushBlock true)
+          else if e == "fu" then some (.flushBlock false)
+          else if e == "sr" then some (.shutdownReady true)
+          else if e == "sp" then some (.shutdownReady false)
+          else if e.isEmpty then none
+          else (toksOfString e).map Ev.bytes
+        ev.map fun ev => { c with events := c.events ++ [(t, ev)] }
+    | _ => none
+
+def insertEv (x : Nat × Ev) : List (Nat × Ev) → List (Nat × Ev)
+  | [] => [x]
+  | y :: ys => if x.1 < y.1 then x :: y :: ys else y :: insertEv x ys
+
+/-- stable sort by time -/
+def sortEvs (es : List (Nat × Ev)) : List (Nat × Ev) := es.foldl (fun acc e => insertEv e acc) []
+
+def parseCase (line : String) : Option Case :=
+  ((words line).foldlM parseWord ({} : Case)).map fun c => { c with events := sortEvs c.events }
+
+/-- the token stream of a case must be in the language the model claims: `(G|C|ab|Pd)*` followed
+by an optional unfinished `a` / `P`, or by `X` and anything -/
+def wellFormed : List Tok → Bool
+  | [] => true
+  | .G :: r => wellFormed r
+  | .C :: r => wellFormed r
+  | .X :: _ => true
+  | [.a] => true
+  | .a :: .b :: r => wellFormed r
+  | [.P] => true
+  | .P :: .d :: r => wellFormed r
+  | _ => false
+
+def allToks (c : Case) : List Tok :=
+  c.events.flatMap fun e => match e.2 with | .bytes ts => ts | _ => []
+
+structure W where
+  s : St
+  callTime : List (Nat × Nat) := []
+  bodyStart : List (Nat × Nat) := []
+  wrBlocked : Bool := false
+  flBlocked : Bool := false
+  sdReady : Bool := true
+  evs : List (Nat × Ev)
+  recs : List String := []     -- reversed
+
+def lookup (k : Nat) : List (Nat × Nat) → Option Nat
+  | [] => none
+  | (a, b) :: r => if a = k then some b else lookup k r
+
+def handlerOf (c : Case) (rid : Nat) : Nat × BodyKind × Nat :=
+  match c.handlers with
+  | [] => (0, .empty, 0)
+  | hs => hs.getD (min rid (hs.length - 1)) (0, .empty, 0)
+
+def showKind : ReqKind → String
+  | .k => "k" | .c => "c" | .p => "p"
+
+def showDone : DoneKind → String
+  | .ok => "ok"
+  | .disconnectTimeout => "err:disconnect-timeout"
+  | .parse => "err:parse"
+  | .internal => "err:internal"
+
+def showOut (t : Nat) : Out → String
+  | .call _ kd => s!"c{t}:{showKind kd}"
+  | .head st cl => s!"h{t}:{st}{if cl then "c" else "k"}"
+  | .bodyEnd => s!"e{t}"
+  | .shut r => s!"s{t}{if r then "r" else "p"}"
+  | .done k => s!"D{t}:{showDone k}"
+  | .panic _ => "PANIC"
+
+def pushRec (recs : List String) (r : String) : List String :=
+  match recs with
+  | x :: _ => if x == r then recs else r :: recs
+  | [] => [r]
+
+def optMin (a : Option Nat) (b : Option Nat) : Option Nat :=
+  match a, b with
+  | some x, some y => some (min x y)
+  | some x, none => some x
+  | none, y => y
+
+def future (t : Nat) (d : Option Nat) : Option Nat :=
+  match d with
+  | some x => if x > t then some x else none
+  | none => none
+
+def timerDl : Timer → Option Nat
+  | .active d => some d
+  | _ => none
+
+/-- next instant at which something wakes the connection task, strictly after `t` -/
+def nextWake (c : Case) (w : W) (t : Nat) : Option Nat :=
+  let s := w.s
+  let tm := optMin (future t (timerDl s.headTimer)) (optMin (future t (timerDl s.kaTimer)) (future t (timerDl s.sdTimer)))
+  let sg := if s.graceful then future t c.signal else none
+  let hd := match s.st with
+    | .service rid _ =>
+      (match lookup rid w.callTime with
+       | some t0 => future t (some (t0 + (handlerOf c rid).1))
+       | none => none)
+    | .sendPayload rid .stream 1 =>
+      (match lookup rid w.bodyStart with
+       | some t0 => future t (some (t0 + (handlerOf c rid).2.2))
+       | none => none)
+    | _ => none
+  optMin tm (optMin sg hd)
+
+/-- apply the events due at `now`; returns the arrivals for the next poll -/
+def applyEvs (now accept : Nat) : List (Nat × Ev) → W → List Tok → Bool → Bool → W × List Tok × Bool × Bool
+  | [], w, arr, eof, any => ({ w with evs := [] }, arr, eof, any)
+  | (t, e) :: rest, w, arr, eof, any =>
+    if max t accept ≤ now then
+      match e with
+      | .bytes ts => applyEvs now accept rest w (arr ++ ts) eof true
+      | .eof => applyEvs now accept rest w arr true true
+      | .wake => applyEvs now accept rest w arr eof true
+      | .writeBlock b => applyEvs now accept rest { w with wrBlocked := b } arr eof true
+      | .flushBlock b => applyEvs now accept rest { w with flBlocked := b } arr eof true
+      | .shutdownReady b => applyEvs now accept rest { w with sdReady := b } arr eof true
+    else ({ w with evs := (t, e) :: rest }, arr, eof, any)
+
+def applyEvents (w : W) (now accept : Nat) (arr : List Tok) (eof : Bool) (any : Bool) : W × List Tok × Bool × Bool :=
+  applyEvs now accept w.evs w arr eof any
+
+def mkIn (c : Case) (w : W) (now : Nat) (arr : List Tok) (eof : Bool) : In :=
+  { now := now
+    cached := 500 * (now / 500)
+    arrive := arr
+    eof := eof
+    sig := match c.signal with | some s => decide (s ≤ now) | none => false
+    hReady := fun rid =>
+      let (delay, body, _) := handlerOf c rid
+      let ready := match lookup rid w.callTime with
+        | some t0 => decide (t0 + delay ≤ now)
+        | none => delay == 0
+      if ready then some body else none
+    bReady := fun rid =>
+      let gap := (handlerOf c rid).2.2
+      match lookup rid w.bodyStart with
+      | some t0 => decide (t0 + gap ≤ now)
+      | none => gap == 0
+    wr := !w.wrBlocked
+    fl := !w.flBlocked
+    sd := w.sdReady }
+
+/-- bookkeeping after a poll: call times and body start times -/
+def note (w : W) (now : Nat) (outs : List Out) (s' : St) : W :=
+  let ct := outs.foldl (fun acc o => match o with
+    | .call rid _ => if (lookup rid acc).isSome then acc else (rid, now) :: acc
+    | _ => acc) w.callTime
+  let bs := match s'.st with
+    | .sendPayload rid .stream 1 => if (lookup rid w.bodyStart).isSome then w.bodyStart else (rid, now) :: w.bodyStart
+    | _ => w.bodyStart
+  { w with callTime := ct, bodyStart := bs, s := s' }
+
+/-- polls at one instant: first with the arrivals, then again while the task woke itself -/
+def pollsAt (c : Case) (now : Nat) : Nat → W → List Tok → Bool → W × Bool
+  | 0, w, _, _ => ({ w with recs := pushRec w.recs s!"LIVELOCK{now}" }, true)
+  | f + 1, w, arr, eof =>
+    let i := mkIn c w now arr eof
+    let r := poll c.cfg w.s i
+    let w := note w now r.outs r.s
+    let w := { w with recs := r.outs.foldl (fun acc o => pushRec acc (showOut now o)) w.recs }
+    if r.s.complete then (w, true)
+    else if r.selfWake then pollsAt c now f w [] false
+    else (w, false)
+
+def simulate (c : Case) : Nat → W → Nat → Bool → W
+  | 0, w, _, _ => { w with recs := pushRec w.recs "FUEL" }
+  | f + 1, w, t, flag =>
+    -- where does the clock go next?
+    let evT := match w.evs with | (te, _) :: _ => some (max te c.accept) | [] => none
+    let now :=
+      if flag then t
+      else match optMin evT (nextWake c w t) with
+        | some x => min x c.horizon
+        | none => c.horizon
+    if now ≥ c.horizon then { w with recs := pushRec w.recs "HANG" }
+    else
+      let (w, arr, eof, any) := applyEvents w now c.accept [] false false
+      let woken := flag || any || (match nextWake c w t with | some x => decide (x ≤ now) | none => false)
+      if woken then
+        let (w, fin) := pollsAt c now 64 w arr eof
+        if fin then w else simulate c f w now false
+      else simulate c f w now false
+
+def run (line : String) : String :=
+  match parseCase line with
+  | none => "bad-case"
+  | some c =>
+    if !wellFormed (allToks c) then "unsupported"
+    else
+      let w : W := { s := St.init c.cfg c.signal.isSome, sdReady := c.sdReady, evs := c.events }
+      let w := simulate c 100000 w c.accept true
+      joinWith " " w.recs.reverse
 
 end ActixModel.Drv.C06
